@@ -19,7 +19,7 @@ RULE = ("generated data files (all record types, few names so that many values s
         "compared in Go only, files of 2500 (quick) to 64000 (thorough) records with hot keys across bucket and batch "
         "boundaries; and two schedule-dependent classes compared in Go only: race-batch (240 lines, one key holding 180 "
         "values spread over the file, batches of 1-4 records, 8 or 16 in parallel, 16 parser workers, 6 compilations) and "
-        "race-cdb (about 2000 subnet lines in which 124 prefix lengths occur exactly once, CDB with 4/8/16 workers, 80 "
+        "race-cdb (about 2000 subnet lines in which 124 prefix lengths occur exactly once, CDB with 4/8/16 workers, 120 "
         "compilations); non-trivial = distinct (file, codec configuration, setting) with at least one record read back, "
         "or distinct bucket input with at least two keys")
 TRUSTED_BASE = [
